@@ -444,6 +444,22 @@ def main():
 '''
 
 
+OWN_IMPORT_MODULE = '''"""a module that imports jaxtyping itself, but only AFTER its first definitions"""
+LOG = []
+def early(x):
+    return x
+class Early:
+    def m(self, y):
+        return y
+import jaxtyping
+import jaxtyping as jt
+def late(x):
+    return (jaxtyping.__name__, jt.__name__, x)
+def main():
+    return (early(1), Early().m(2), late(3)), LOG
+'''
+
+
 def execute(code, path):
     mod = types.ModuleType("genmod")
     mod.__file__ = path
@@ -472,7 +488,7 @@ def run(tier, seed, out, drv, facts):
     for i in range(n_gen + 1):
         # the first "generated" module is a fixed one with a definition in every kind of statement block
         # (if/elif/else, for/else, while/else, with, try/except/else/finally, except*, match cases, nested)
-        source = KITCHEN_SINK if i == 0 else ANNOTATED_MODULE if i == 1 else TYPE_CHECKING_MODULE if i == 2 else gen_module(rng)
+        source = [KITCHEN_SINK, ANNOTATED_MODULE, TYPE_CHECKING_MODULE, OWN_IMPORT_MODULE][i] if i < 4 else gen_module(rng)
         path = f"<generated {i}>"
         code = validate(out, drv, source, path, "generated")
         if code is None:
@@ -491,7 +507,7 @@ def run(tier, seed, out, drv, facts):
             out.violation("behaviour", f"a hooked module behaves differently from the plain one: {str(plain)[:300]} vs {str(hooked)[:300]}", {"source": source})
         # the same module through the real loader: the compile step must not add or lose __future__ behaviour, and the
         # module must behave as when it is compiled here from the transformed tree
-        if i % 10 == 0 or i < 3:
+        if i % 10 == 0 or i < 4:
             try:
                 lcode = through_loader(source, path)
             except Exception as e:  # noqa: BLE001
